@@ -149,7 +149,10 @@ def install(ip):
     if isinstance(v, (tuple,)):
       return PyList(list(v))
     if isinstance(v, SymSeq):
-      return v.copy()
+      c = v.copy()
+      ip.ctx.counter += 1
+      c.birth = ip.ctx.counter
+      return c
     if isinstance(v, PySetLit):
       return PyList(list(v.items))
     if isinstance(v, Model) and hasattr(v, 'as_symseq'):
